@@ -138,6 +138,9 @@ example : valuePipeline goJson toyE toyV cfgAB (ofString "#{${a}+${b}}") .int = 
 example : valuePipeline goJson toyE toyV cfgAB (ofString "#{${a} ${op} ${b}}") .string = .ok (.str (ofString "6")) := by decide +kernel
 -- `#{…}` containing `${…:default}`
 example : valuePipeline goJson toyE toyV cfgAB (ofString "#{${a}+${missing:3}}") .int = .ok (.int 5) := by decide +kernel
+-- … and a configured key wins over its declared default, also when it is configured with 0
+example : valuePipeline goJson toyE toyV (fun k => if k = ofString "z" then .int 0 else cfgAB k) (ofString "#{${a}+${b:9}}") .int = .ok (.int 5) := by decide +kernel
+example : quoteStage goJson (fun k => if k = ofString "z" then .int 0 else cfgAB k) (ofString "#{${z:7}*${a:9}}") = .ok (ofString "#{0*2}") := by decide +kernel
 -- a float result into a float and into an int field
 example : valuePipeline goJson toyE toyV cfgAB (ofString "#{10/4}") .float = .ok (.dec (ofString "2.5")) := by decide +kernel
 example : valuePipeline goJson toyE toyV cfgAB (ofString "#{10/4}") .int = .ok (.int 2) := by decide +kernel
